@@ -75,3 +75,14 @@ package pm
 // %bxy reports "no match" only after it has examined the subject up to its end (functional clause, not only safety)
 //@ loop 2 exit sp >= len(src)
 //@ loop 3 invariant 0 <= i && 0 <= sp && Inv_md(m) && (len(ms) > 0 ==> m == ms[0] && len(m.captures) >= old(len(ms[0].captures))) && 0 <= pc && pc < len(insts) && insts[pc].OpCode == 8 && offset(capture) >= 0
+
+// Find (parser, compiler, scan loop) is not verified as a whole; what its callers in stringlib.go rely on is assumed:
+// pattern errors come back as err (the deferred handler converts *Error panics), every match carries the whole-match
+// pair plus one pair per capture, and closed captures lie inside the subject.
+//@ trusted Find [C14]
+//@ logged
+//@ noraise
+//@ ensures  forall i int :: 0 <= i && i < len(matches) ==> matches[i] != nil && Inv_md(matches[i]) && len(matches[i].captures) >= 2 && len(matches[i].captures) % 2 == 0 && matches[i].captures[0] % 2 == 0
+//@ ensures  forall i int, k int :: 0 <= i && i < len(matches) && 0 <= k && k + 1 < len(matches[i].captures) && k % 2 == 0 && matches[i].captures[k] % 2 == 0 ==> matches[i].captures[k] / 2 <= matches[i].captures[k+1] / 2 && matches[i].captures[k+1] / 2 <= len(src)
+//@ ensures  offset(matches) == 0 && (limit > 0 ==> len(matches) <= limit)
+//@ modifies nothing
